@@ -12,6 +12,7 @@
 #include <dbus/dbus-string-private.h>
 #include <dbus/dbus-marshal-header.h>
 #include "vf.h"
+#include "pool_strings.h"
 #include "ref_marshal.h"
 #define CAP 72
 /* field codes are part of the shape (R4): symbolic codes make the variant signatures read back from the edited
